@@ -11,8 +11,8 @@
 From Coq Require Import ZArith List String Ascii Bool.
 From Coq Require DecimalString HexadecimalString.
 Import ListNotations.
-Open Scope string_scope.
-Open Scope Z_scope.
+Local Open Scope string_scope.
+Local Open Scope Z_scope.
 
 (* ---------------------------------------------------------------- rendering helpers *)
 
